@@ -189,6 +189,8 @@ func (ba *badgerBatch) refreshDbPtr(ptr *node.Pointer, parent *node.Pointer) err
 			version: ba.version,
 			index:   index,
 		}
+		// Remember the pointer so that the assignment can be undone in case the batch is abandoned.
+		ba.assignedPtrs = append(ba.assignedPtrs, ptr)
 	}
 
 	// If this is a multipart insert, the node may already exist. In this case, we need to fetch it
